@@ -326,7 +326,9 @@ func (z *ZodSet[T, R]) extractForEngine(value any) (map[T]struct{}, bool) {
 	if slice, ok := value.([]T); ok {
 		set := make(map[T]struct{}, len(slice))
 		for _, elem := range slice {
-			set[elem] = struct{}{}
+			if !insertSetElem(set, elem) {
+				return nil, false
+			}
 		}
 		return set, true
 	}
@@ -337,7 +339,9 @@ func (z *ZodSet[T, R]) extractForEngine(value any) (map[T]struct{}, bool) {
 			if !ok {
 				return nil, false
 			}
-			set[typed] = struct{}{}
+			if !insertSetElem(set, typed) {
+				return nil, false
+			}
 		}
 		return set, true
 	}
@@ -354,7 +358,9 @@ func (z *ZodSet[T, R]) extractForEngine(value any) (map[T]struct{}, bool) {
 			if !ok {
 				return nil, false
 			}
-			set[typed] = struct{}{}
+			if !insertSetElem(set, typed) {
+				return nil, false
+			}
 		}
 		return set, true
 	}
@@ -365,11 +371,25 @@ func (z *ZodSet[T, R]) extractForEngine(value any) (map[T]struct{}, bool) {
 			if !ok {
 				return nil, false
 			}
-			set[typed] = struct{}{}
+			if !insertSetElem(set, typed) {
+				return nil, false
+			}
 		}
 		return set, true
 	}
 	return nil, false
+}
+
+// insertSetElem adds elem to set. It reports false when elem cannot be a map key: with T = any an
+// element may hold an unhashable dynamic value (slice, map, func), for which the insertion panics.
+func insertSetElem[T comparable](set map[T]struct{}, elem T) (ok bool) {
+	defer func() {
+		if recover() != nil {
+			ok = false
+		}
+	}()
+	set[elem] = struct{}{}
+	return true
 }
 
 // extractPtrForEngine extracts *map[T]struct{} from input for engine.ParseComplex.
